@@ -1,5 +1,6 @@
 import Driver.Store2
 import NixModel.Store.CopyFrames
+import NixModel.Store.CopyHandle
 open Lean Nix.Store
 
 namespace Driver.C20
@@ -30,6 +31,21 @@ def step (s : Driver.Store2.St) (j : Json) : Driver.Store2.St × Json :=
       | some c, some key => Driver.Store2.applyS s (contAppend20 s.g c key)
       | none, _ => (s, Driver.bad "container")
       | _, none => (s, Driver.bad "key")
+  -- which object HDF5 finds at the source an entry point names, for a handle (object path, parent path | null):
+  -- `sourceOf` of Store/CopyHandle.lean; answer: [is it the handle's own object, its name] or null (nothing there)
+  | [.str "source_of", .str addr, .str cls, op, pp, _] =>
+    match Driver.Store.resolveKey s.g op with
+    | none => (s, Driver.bad "object path")
+    | some k =>
+      let par? : Option (Option Nat) :=
+        if pp == Json.null then some none else (Driver.Store.resolveKey s.g pp).map some
+      match par? with
+      | none => (s, Driver.bad "parent path")
+      | some par =>
+        let a := if addr == "object" then CopyShape.SrcAddr.object else CopyShape.SrcAddr.parentPath
+        match CopyShape.sourceOf a s.g cls ⟨k, par⟩ with
+        | none => (s, Driver.ok Json.null)
+        | some k' => (s, Driver.ok (Json.arr #[Json.bool (k' == k), Json.str ((s.g.getAttr k' "name").getD "")]))
   | _ => Driver.Store2.step s j
 
 def main : IO Unit := Driver.loop ({} : Driver.Store2.St) step
